@@ -124,12 +124,23 @@ class VoteModel(object):
         min_margin = np.inf
         qidx_all = np.array([self.qcol[g] for g in genes], dtype=int)
         ridx_all = np.array([self.rcol[g] for g in genes], dtype=int)
+        min_rel_std = np.inf
+        tol_used = self.tol
         for S in subsets:
             S = np.array(S, dtype=int)
             qv = self.lq[ci, qidx_all[S]]
+            # conditioning of the correlation: for float32 input the rounding error of log2(CPM+1) (about
+            # 1e-7 relative to the values) is amplified by max|v|/std(v) when the sub-vector is almost constant
+            sd = float(np.std(qv))
+            rel = sd / max(float(np.max(np.abs(qv))), 1e-300) if len(qv) else 0.0
+            min_rel_std = min(min_rel_std, rel)
+            tol_s = self.tol
+            if self.float32 and rel > 0:
+                tol_s = min(1e-2, self.tol * max(1.0, 0.1 / rel))
+            tol_used = max(tol_used, tol_s)
             cs = {lf: self.corr(qv, self.mean[lf][ridx_all[S]]) for lf in leaves}
             mx = max(cs.values())
-            adm = {l2c[lf] for lf in leaves if cs[lf] >= mx - self.tol}
+            adm = {l2c[lf] for lf in leaves if cs[lf] >= mx - tol_s}
             # margin between the best child and the best leaf of any other child
             for k in adm:
                 hi[k] += 1
@@ -143,4 +154,5 @@ class VoteModel(object):
             else:
                 ambiguous = True
         return {'lo': lo, 'hi': hi, 'csum': csum, 'ambiguous': ambiguous,
-                'kids': kids, 'min_margin': float(min_margin)}
+                'kids': kids, 'min_margin': float(min_margin), 'tol': float(tol_used),
+                'min_rel_std': float(min_rel_std)}
